@@ -125,6 +125,16 @@ QNameOk(N, x, q) ==
          [] q[1] = "err" -> \A p \in cands : ResolveQName(N, x, p) # N[x].ns
          [] OTHER -> FALSE
 
+\* the other views of the name behind name_ref (src/xmlname): the reference's own strings, its owned copy (OwnedName keeps
+\* the triple; equality ignores the prefix) and the way back (maybe_to_ref finds the same ids without registering)
+NViewOk(N, x, q, v) ==
+    q[1] = "ok" =>
+        LET full == IF q[2] = "" THEN q[3] ELSE q[2] \o ":" \o q[3]
+            unp == N[x].ns # "" /\ q[2] = ""
+        IN /\ v.has /\ v.full = full /\ v.ns = N[x].ns
+           /\ v.o = <<q[2], q[3], N[x].ns, full>>
+           /\ v.unpref = unp /\ v.indef = unp /\ v.eqpx /\ v.back
+
 ScopeFieldsBad(N, x, o, e) ==
     LET chk(name, ok) == IF ok THEN {} ELSE {name}
     IN chk("namespaces_in_scope", PairSet(o.inscope) = InScope(N, x) /\ Len(o.inscope) = Cardinality(InScope(N, x)))
@@ -143,6 +153,7 @@ ScopeFieldsBad(N, x, o, e) ==
        \cup (IF N[x].k \in {"elem", "attr"}
              THEN chk("full_name", QNameOk(N, x, o.fnm)) \cup chk("name_ref", QNameOk(N, x, o.nref))
                   \cup chk("node_name_ref", QNameOk(N, x, o.nnref))
+                  \cup chk("name_ref: strings / owned copy / way back", NViewOk(N, x, o.nref, o.nview))
              ELSE {})
 
 C09Bad(e) ==
@@ -173,7 +184,11 @@ C13Bad(e) ==
 -----------------------------------------------------------------------------
 Judge(j) ==
     LET e == Rec[j] IN
-    IF StructDefect(e.post.n) # "none" THEN Report(j, "TOOL", {<<"state is not structurally valid", StructDefect(e.post.n), 0>>})
+    IF StructDefect(e.post.n) # "none"
+    THEN \* a state built from a generated description must be valid (else the generator is wrong); a state reached by
+         \* manipulation calls of the crate that is no tree any more is the crate's doing
+         IF e.steps > 0 THEN Report(j, "STRUCT", {<<"after manipulation calls the forest is not structurally valid (traversals cannot describe it)", StructDefect(e.post.n), 0>>})
+         ELSE Report(j, "TOOL", {<<"state is not structurally valid", StructDefect(e.post.n), 0>>})
     ELSE /\ (Wants(e, "axes") /\ C07Bad(e) # {}) => Report(j, "C07", C07Bad(e))
          /\ (Wants(e, "axes") /\ ApiBad(e) # {}) => Report(j, "XAPI", ApiBad(e))
          /\ (Wants(e, "axes") /\ C13SvBad(e) # {}) => Report(j, "C13", {<<x, "string_value">> : x \in C13SvBad(e)})
